@@ -329,3 +329,17 @@ Proof.
 Qed.
 
 End SMHist.
+
+(** boolean form of [packet_emit], for computed instances *)
+Definition packet_emit_b (x : input) (o : obs) : bool :=
+  match i_sync x with SPacket => existsb (fun cb => is_packet_ty (cb_type cb)) (o_cbs o) | _ => false end.
+
+Lemma packet_emit_b_ok (x : input) (o : obs) : packet_emit_b x o = true -> packet_emit x o.
+Proof. unfold packet_emit_b, packet_emit, has_cb. destruct (i_sync x); try discriminate. intros H.
+  split; [reflexivity|]. apply existsb_exists in H. destruct H as (cb & Hin & Hty). exists cb. split; assumption. Qed.
+
+Lemma at_of_bool (P : input -> obs -> Prop) (Pb : input -> obs -> bool) (HP : forall x o, Pb x o = true -> P x o)
+  (h : list input) (os : list obs) (i : nat) :
+  match nth_error h i, nth_error os i with Some x, Some o => Pb x o | _, _ => false end = true -> at_ input obs P h os i.
+Proof. unfold at_. destruct (nth_error h i) as [x|]; [|discriminate]. destruct (nth_error os i) as [o|]; [|discriminate].
+  intros H. exists x, o. split; [reflexivity | split; [reflexivity | exact (HP x o H)]]. Qed.
